@@ -86,6 +86,8 @@ def get_line_context(line: str) -> tuple[str, None] | tuple[str, str]:
         `var_key`, `pro_line`, `var_only`, `mod_mems`, `mod_only`, `pro_link`,
         `skip`, `import`, `vis`, `call`, `type_only`, `int_only`, `first`, `default`
     """
+    # A statement label ("230 call foo(") is not part of the statement
+    line, _ = strip_line_label(line)
     last_level, sections = get_paren_level(line)
     lev1_end = sections[-1].end
     # Test if variable definition statement
